@@ -20,7 +20,7 @@ class A(Adapter):
     serves = {"C01", "C04", "C05", "C06", "C08", "C09", "C10", "C11", "C12"}
     terminate_on_invalid = True
     max_steps = 70
-    ops = ("state", "step", "judge", "instance")
+    ops = ("state", "step", "judge", "instance", "bounds")
     episode_cap = 1200
     fan_limit = 64
 
